@@ -356,14 +356,21 @@ def make_matcher(m):
     if m is None:
         return None
     if m["kind"] == "naive":
-        return NaiveThresholdMatching(
+        o = NaiveThresholdMatching(
             matching_metric=METRIC[m["metric"]],
             matching_threshold=m["thr"],
             allow_many_to_one=bool(m.get("m2o", False)),
         )
-    if m["kind"] == "merge":
-        return MaximizeMergeMatching(matching_metric=METRIC[m["metric"]], matching_threshold=m["thr"])
-    raise KeyError(m)
+    elif m["kind"] == "merge":
+        o = MaximizeMergeMatching(matching_metric=METRIC[m["metric"]], matching_threshold=m["thr"])
+    else:
+        raise KeyError(m)
+    try:
+        # what the caller asked for: the monitors judge against this, not against what the object stored
+        o._vf_cfg = {"metric": m["metric"], "thr": float(m["thr"]), "m2o": bool(m.get("m2o", False))}
+    except Exception:  # noqa: BLE001
+        pass
+    return o
 
 
 def make_handler(h, std="NAN"):
